@@ -12,7 +12,10 @@ Abstractions the translator makes (trusted; DESIGN.md section 3a):
 * `[]T` is `List T` *without aliasing* (the translator refuses functions that keep two names for one backing array);
 * `map[K]V` is an association list with distinct keys, `range` presents it in the order of the list — theorems
   about the callers are stated for every order;
-* `bytes.Buffer` / `strings.Builder` is the text written so far;
+* `bytes.Buffer` / `strings.Builder` / an `io.Writer` parameter is the text written so far; `fmt.Sprintf` / `Fprintf` with a
+  constant format whose only verb is `%s` is the concatenation of the format's pieces and the arguments;
+* a pointer that the code compares with nil is an `Option` (a `*sumfile.File` is the `Option` of its `Data` map, which
+  both places that create one allocate);
 * a run-time panic is `Err.panic`; a three-clause `for` is given fuel and running out of it is `Err.fuel`, a result
   distinct from every result of the code (an equivalence theorem therefore shows the fuel sufficed).
 -/
@@ -31,6 +34,11 @@ inductive Ctl (σ ρ : Type) where
   | ret (r : ρ)
 
 def len (l : List α) : Int := Int.ofNat l.length
+
+/-- `*p` / a method call through `p`: a nil pointer panics -/
+def deref : Option α → M α
+  | some a => pure a
+  | none => throw .panic
 
 /-- `l[i]` -/
 def idx (l : List α) (i : Int) : M α :=
@@ -93,6 +101,23 @@ def mapHas [BEq κ] (m : List (κ × ν)) (k : κ) : Bool := m.any (·.1 == k)
 /-- `slices.Sorted` / `sort.Strings`: ascending in Go's string order (`Gengo.lexLe`, code points = bytes on valid
     UTF-8).  The translated callers sort the keys of a map, which are distinct: the sorted list is then unique. -/
 def sortStrs (l : List Str) : List Str := Gengo.sortBy id l
+
+/-- `slices.Index` -/
+def sliceIndexAux [BEq α] (v : α) : List α → Nat → Int
+  | [], _ => -1
+  | x :: xs, i => if x == v then Int.ofNat i else sliceIndexAux v xs (i + 1)
+
+def sliceIndex [BEq α] (l : List α) (v : α) : Int := sliceIndexAux v l 0
+
+/-- `_, err := strconv.ParseInt(s, 10, 64); err == nil`: an optional sign, at least one decimal digit, within int64 -/
+def parsesInt (s : Str) : Bool :=
+  let (neg, ds) := match s with
+    | '+' :: r => (false, r)
+    | '-' :: r => (true, r)
+    | r => (false, r)
+  !ds.isEmpty && ds.all (fun c => '0' ≤ c && c ≤ '9') &&
+    (let v := ds.foldl (fun acc c => acc * 10 + (c.toNat - 48)) 0
+     if neg then v ≤ 9223372036854775808 else v ≤ 9223372036854775807)
 
 /-- `0 … n-1` (`for i := range n`) -/
 def intRange (n : Int) : List Int := (List.range n.toNat).map Int.ofNat
